@@ -143,7 +143,21 @@ def intern_equal(v, pool=None):
         out = [intern_equal(x, pool) for x in v]
     else:
         return v
-    return pool.setdefault(repr(out), out)
+    return pool.setdefault(_exact_key(out), out)
+
+
+def _exact_key(v):
+    """Text that is equal only for values that are equal bit for bit (floats by their IEEE pattern: two NaNs with
+    different payloads print alike; ints, bools and floats of equal value are told apart)."""
+    import struct
+
+    if isinstance(v, dict):
+        return "{" + ",".join("%r:%s" % (k, _exact_key(x)) for k, x in v.items()) + "}"
+    if isinstance(v, list):
+        return "[" + ",".join(_exact_key(x) for x in v) + "]"
+    if isinstance(v, float):
+        return "f" + struct.pack("<d", v).hex()
+    return "%s:%r" % (type(v).__name__, v)
 
 
 def shares_objects(v, seen=None):
